@@ -374,10 +374,15 @@ package parser
 //@   modifies regExpParser.chr, regExpParser.chrOffset, regExpParser.offset, regExpParser.errors, elems(error)
 //@   nothrow
 
+// Control escapes (15.10.2.10): \cX with X any of a-z, A-Z denotes the character X mod 32
+// and is written as a hexadecimal escape; only when X is NOT a letter is the text kept
+// literally (the 'c' written back).
 //@ func (*regExpParser).scanEscape
 //@   props C04 C10
 //@   safety C04 C10
 //@   requires wfRE(p)
+//@   at_call bytes.(*bytes.Buffer).WriteByte : arg1 == 'c' ==> !((p.chr >= 'a' && p.chr <= 'z') || (p.chr >= 'A' && p.chr <= 'Z'))
+//@   at_call strconv.AppendInt : old(p.chr) == 'c' ==> arg2 == 16 && arg1 == int64(p.chr % 32) && ((p.chr >= 'a' && p.chr <= 'z') || (p.chr >= 'A' && p.chr <= 'Z'))
 //@   invariant@1 wfRE(p) && sameRE(p) && p.offset >= old(p.offset) && p.chrOffset >= old(p.chrOffset) && reLE(p)
 //@   decreases@1 up p.offset to p.length ; bool2int(p.chr >= 0)
 //@   invariant@2 wfRE(p) && sameRE(p) && p.offset >= old(p.offset) && p.chrOffset >= old(p.chrOffset) && reLE(p)
